@@ -74,6 +74,24 @@ def buildAll (push0 : Bool) : List JItem → List String → Option (List Byteco
     | none => none
     | some (b, tbl') => (buildAll push0 js tbl').map (b :: ·)
 
+/-- names that end a block -/
+def isFinal (n : String) : Bool := n == "JUMP" || n == "JUMPI" || n == "STOP" || n == "RETURN" || n == "REVERT" || n == "INVALID"
+
+/-- `build_blocks_from_asm_representation`: the items of a code section cut into blocks (a block ends with a final instruction, a
+    `tag` starts a new one when the current one is not empty); the PUSHLIB table starts empty in every block.
+    `cur`: the block being filled, `tbl`: its table -/
+def buildBlocks (push0 : Bool) : List JItem → List Bytecode → List String → Option (List (List Bytecode))
+  | [], cur, _ => some (if cur.isEmpty then [] else [cur])
+  | j :: js, cur, tbl =>
+    match build push0 j tbl with
+    | none => none
+    | some (b, tbl') =>
+      if isFinal (j.name.getD "") then (buildBlocks push0 js [] []).map ((cur ++ [b]) :: ·)
+      else if j.name == some "tag" then
+        if cur.isEmpty then buildBlocks push0 js [b] tbl'
+        else (buildBlocks push0 js [b] []).map (cur :: ·)
+      else buildBlocks push0 js (cur ++ [b]) tbl'
+
 /-! ### wire format: one field is `-` (absent) or `=` followed by its text -/
 def fieldS (s : String) : Option String := if s.startsWith "=" then some (s.drop 1).toString else none
 def fieldI (s : String) : Option Int := (fieldS s).bind String.toInt?
@@ -103,5 +121,14 @@ def handleItems (p0 items : String) : String :=
     match buildAll (p0 == "1") js [] with
     | none => "raise"
     | some bs => "\x1e".intercalate (bs.map showBytecode) ++ "\x1d" ++ "\x1e".intercalate (bs.map fun b => showItem (toJson b))
+
+/-- JSONBLOCKS: a code section → its blocks (separated by \x1d), each a list of bytecodes -/
+def handleBlocks (p0 items : String) : String :=
+  match (items.splitOn "\x1e").filter (· ≠ "") |>.mapM parseItem with
+  | none => "error:parse"
+  | some js =>
+    match buildBlocks (p0 == "1") js [] [] with
+    | none => "raise"
+    | some bl => "\x1d".intercalate (bl.map fun bs => "\x1e".intercalate (bs.map showBytecode))
 
 end GasolVerif.Json
